@@ -895,6 +895,8 @@ def tx_cond(e, item, opt_params):
             return f"(opt_action_eqb (e_action hash_entry) (action_of_text (Some {coq_text(r.value)})))"
         if isinstance(op, ast.Eq) and ast.unparse(l) == "hash_entry.hash_format" and isinstance(r, ast.Name) and r.id in opt_params:
             return f"(opt_fmt_eqb (Some (e_fmt hash_entry)) {r.id})"
+        if isinstance(op, (ast.In, ast.NotIn)) and ast.unparse(l) == "hash_entry.hash_format" and isinstance(r, ast.Name) and r.id == "hash_formats":
+            return "(memf (e_fmt hash_entry) hash_formats)" if isinstance(op, ast.In) else "(negb (memf (e_fmt hash_entry) hash_formats))"
     fail(item, f"condition outside the translated fragment: {ast.unparse(e)}")
 
 
@@ -941,6 +943,40 @@ def tx_lookup(fn, coq_name, item, opt_params):
             f"          | None => {coq_name} rest relative_path{args}\n          end\n      end\n  end.\n")
 
 
+def tx_collect(fn, coq_name, item):
+    """hash_formats = []; for hash_list in self.hash_lists: media_hash = ...; if media_hash is None: continue;
+       for hash_entry in media_hash.hash_entries: if C: hash_formats.append(hash_entry.hash_format)
+       return hash_formats"""
+    body = [st for st in fn.body if not (isinstance(st, ast.Expr) and isinstance(st.value, ast.Constant))]
+    if [a.arg for a in fn.args.args] != ["self", "relative_path"]:
+        fail(item, f"parameters {[a.arg for a in fn.args.args]}")
+    ok = (len(body) == 3 and ast.unparse(body[0]) == "hash_formats = []" and isinstance(body[1], ast.For) and ast.unparse(body[1].target) == "hash_list"
+          and ast.unparse(body[1].iter) == "self.hash_lists" and not body[1].orelse and ast.unparse(body[2]) == "return hash_formats")
+    if not ok:
+        fail(item, "outer shape: `hash_formats = []`, `for hash_list in self.hash_lists: ...`, `return hash_formats` expected")
+    inner = body[1].body
+    ok = (len(inner) == 3 and ast.unparse(inner[0]) == "media_hash = hash_list.find_media_hash_for_path(relative_path)"
+          and ast.unparse(inner[1]) == "if media_hash is None:\n    continue"
+          and isinstance(inner[2], ast.For) and ast.unparse(inner[2].target) == "hash_entry" and ast.unparse(inner[2].iter) == "media_hash.hash_entries"
+          and not inner[2].orelse and len(inner[2].body) == 1 and isinstance(inner[2].body[0], ast.If) and not inner[2].body[0].orelse)
+    if not ok:
+        fail(item, f"loop body outside the translated fragment: {[ast.unparse(x) for x in inner]}")
+    node = inner[2].body[0]
+    if [ast.unparse(x) for x in node.body] != ["hash_formats.append(hash_entry.hash_format)"]:
+        fail(item, f"branch body {[ast.unparse(x) for x in node.body]} (expected `hash_formats.append(hash_entry.hash_format)`)")
+    cond = tx_cond(node.test, item, [])
+    return (f"(* history.py:{fn.name} *)\n"
+            f"Definition {coq_name} (hash_lists : list gen) (relative_path : path) : list fmt :=\n"
+            f"  fold_left (fun hash_formats hash_list =>\n"
+            f"    match find_media_hash hash_list relative_path with\n"
+            f"    | None => hash_formats\n"
+            f"    | Some media_hash =>\n"
+            f"        fold_left (fun hash_formats hash_entry =>\n"
+            f"          if {cond} then hash_formats ++ [e_fmt hash_entry] else hash_formats)\n"
+            f"          (r_entries media_hash) hash_formats\n"
+            f"    end) hash_lists [].\n")
+
+
 def generate_fns(repo):
     mod = parse(repo, "ascmhl/history.py")
     cls = find_class(mod, "MHLHistory", "MHLHistory")
@@ -949,6 +985,8 @@ def generate_fns(repo):
                            "src_find_original", "find_original_hash_entry_for_path", []))
     parts.append(tx_lookup(find_func(cls.body, "find_first_hash_entry_for_path", "find_first_hash_entry_for_path"),
                            "src_find_first", "find_first_hash_entry_for_path", ["hash_format"]))
+    parts.append(tx_collect(find_func(cls.body, "find_existing_hash_formats_for_path", "find_existing_hash_formats_for_path"),
+                            "src_existing_formats", "find_existing_hash_formats_for_path"))
     return "\n".join(parts)
 
 
@@ -1011,7 +1049,7 @@ def main(argv):
             with open(path + ".tmp", "w", encoding="utf-8") as fh:
                 fh.write(content)
             os.replace(path + ".tmp", path)
-    print(json.dumps({"ok": True, "changed": changed, "items": len(summary) + (0 if fn_error else 2), "shape_warnings": WARNINGS,
+    print(json.dumps({"ok": True, "changed": changed, "items": len(summary) + (0 if fn_error else 3), "shape_warnings": WARNINGS,
                       **({"function_translation_failed": fn_error} if fn_error else {})}))
     return 0
 
